@@ -164,6 +164,8 @@ def analyze(ex, stmts, eff=None):
         elif isinstance(n, ast.ExceptHandler):
             if n.name:
                 eff.assigned.add(n.name)
+        elif isinstance(n, ast.Yield):
+            eff.mutated.add('yielded')
         elif isinstance(n, ast.Call):
             call_effects(n)
         elif isinstance(n, ast.NamedExpr):
